@@ -258,12 +258,18 @@ impl SE {
                 }
             }
             SE::Wrap(l, _) => Info::fin(l.len(), l.iter().all(|x| matches!(x, V::I(_))), true),
-            SE::Repeat(v) => Info::inf(matches!(v, V::I(_)), true),
+            SE::Repeat(v) => {
+                let mut i = Info::inf(matches!(v, V::I(_)), true);
+                i.rev_stream = true;
+                i
+            }
             SE::Cycle(l) => {
                 if l.is_empty() {
                     Info::bad()
                 } else {
-                    Info::inf(l.iter().all(|x| matches!(x, V::I(_))), true)
+                    let mut i = Info::inf(l.iter().all(|x| matches!(x, V::I(_))), true);
+                    i.rev_stream = true;
+                    i
                 }
             }
             SE::Iterate(f, _) => Info::inf(!f.starts_with("pair"), true),
@@ -271,12 +277,14 @@ impl SE {
                 let mut i = e.info();
                 i.ints = !f.starts_with("pair");
                 i.len_override = false;
+                i.rev_stream = false;
                 i
             }
             SE::Filter(_, e) => {
                 let mut i = e.info();
                 i.exact = false;
                 i.len_override = false;
+                i.rev_stream = false;
                 i
             }
             SE::Zip(f, es) => {
@@ -291,6 +299,7 @@ impl SE {
                     len_override: false,
                     huge: infos.iter().filter(|i| i.finite).all(|i| i.huge) && finite,
                     bad: infos.iter().any(|i| i.bad),
+                    rev_stream: false,
                 }
             }
             SE::DropS(n, e, _) => {
@@ -340,16 +349,18 @@ struct Info {
     huge: bool,
     /// the constructor itself is expected to raise
     bad: bool,
+    /// `reversed` is overridden and yields a stream (repeat, cycle)
+    rev_stream: bool,
 }
 impl Info {
     fn fin(len: usize, ints: bool, len_override: bool) -> Info {
-        Info { finite: true, len, ints, exact: true, len_override, huge: false, bad: false }
+        Info { finite: true, len, ints, exact: true, len_override, huge: false, bad: false, rev_stream: false }
     }
     fn inf(ints: bool, len_override: bool) -> Info {
-        Info { finite: false, len: 0, ints, exact: true, len_override, huge: false, bad: false }
+        Info { finite: false, len: 0, ints, exact: true, len_override, huge: false, bad: false, rev_stream: false }
     }
     fn bad() -> Info {
-        Info { finite: true, len: 0, ints: true, exact: true, len_override: true, huge: false, bad: true }
+        Info { finite: true, len: 0, ints: true, exact: true, len_override: true, huge: false, bad: true, rev_stream: false }
     }
 }
 fn range_info(a: &BigInt, e: &BigInt, c: &BigInt) -> Info {
@@ -365,7 +376,7 @@ fn range_info(a: &BigInt, e: &BigInt, c: &BigInt) -> Info {
     };
     match cnt.to_usize() {
         Some(n) if n <= 200 => Info::fin(n, true, true),
-        _ => Info { finite: true, len: 1000, ints: true, exact: false, len_override: true, huge: true, bad: false },
+        _ => Info { finite: true, len: 1000, ints: true, exact: false, len_override: true, huge: true, bad: false, rev_stream: false },
     }
 }
 
@@ -407,7 +418,7 @@ fn gen_obs(rng: &mut Rng, info: &Info, elems: &[V], uniq: usize) -> Obs {
             2 if finite_ok => {
                 return Obs { src: "for (i, x <<- s) yield [i, x]".into(), tok: "pairs".into(), kind: "list" }
             }
-            3 if finite_ok || (info.len_override && !info.finite) => {
+            3 if finite_ok || info.rev_stream => {
                 // reverse of repeat / cycle is a stream; of iota / iterate it does not terminate
                 return Obs { src: "reverse(s)".into(), tok: "rev".into(), kind: "reverse" };
             }
@@ -792,40 +803,39 @@ struct Case {
 
 /// elements to test membership with: a short prefix of the stream as the model would produce it
 /// is not available here, so derive candidates from the constructor
-fn candidate_elems(e: &SE) -> Vec<V> {
+fn candidate_elems(e: &SE, skip: usize) -> Vec<V> {
     match e {
         SE::Til(a, _, c, _) | SE::To(a, _, c, _) => {
             let c = c.clone().unwrap_or_else(|| BigInt::from(1));
-            (0..4).map(|i| V::I(a + &c * i)).collect()
+            (0..4).map(|i| V::I(a + &c * (skip + i))).collect()
         }
-        SE::Iota(a) => (0..4).map(|i| V::I(a + i)).collect(),
+        SE::Iota(a) => (0..4).map(|i| V::I(a + (skip + i))).collect(),
         SE::Perms(l, _) => {
-            let mut r = vec![V::L(l.clone())];
             let mut x = l.clone();
             x.reverse();
-            r.push(V::L(x));
-            r
+            vec![V::L(x)]
         }
-        SE::Combs(l, k) => vec![V::L(l.iter().take((*k).max(0) as usize).cloned().collect())],
-        SE::Subseqs(l) => vec![V::L(vec![]), V::L(l.clone()), V::L(l.iter().skip(1).cloned().collect())],
+        SE::Combs(l, k) => vec![V::L(l.iter().rev().take((*k).max(0) as usize).rev().cloned().collect())],
+        SE::Subseqs(l) => vec![V::L(l.clone())],
         SE::Cpow(l, k) => {
             if l.is_empty() {
                 vec![V::L(vec![])]
             } else {
-                vec![V::L(vec![l[0].clone(); (*k).max(0) as usize]), V::L(vec![l[l.len() - 1].clone(); (*k).max(0) as usize])]
+                vec![V::L(vec![l[l.len() - 1].clone(); (*k).max(0) as usize])]
             }
         }
-        SE::Wrap(l, _) | SE::Cycle(l) => l.clone(),
+        SE::Wrap(l, _) => l.iter().skip(skip).cloned().collect(),
+        SE::Cycle(l) => l.clone(),
         SE::Repeat(v) => vec![v.clone()],
-        SE::Iterate(_, v) => vec![v.clone()],
-        SE::DropS(_, e, _) | SE::RevS(e) => candidate_elems(e),
+        SE::Iterate(_, v) if skip == 0 => vec![v.clone()],
+        SE::DropS(n, e, _) => candidate_elems(e, skip + n),
         _ => vec![],
     }
 }
 
 fn make_case(rng: &mut Rng, expr: SE, nobs: usize, uniq: &mut usize) -> Case {
     let info = expr.info();
-    let elems = candidate_elems(&expr);
+    let elems = candidate_elems(&expr, 0);
     let mut obs = vec![];
     if info.bad {
         obs.push(Obs { src: "len(s)".into(), tok: "len".into(), kind: "len" });
@@ -941,6 +951,17 @@ fn run_real(lines: &[(String, String)], exe: &str, notes: &mut Vec<String>) -> H
         }
         let _ = child.kill();
         let _ = child.wait();
+        if std::env::var("C11_DEBUG").is_ok() {
+            eprintln!("worker {} from {} done_here {} failed {:?} current {:?}", restarts, start, done_here, failed, current);
+            if let Some(id) = &current {
+                let cid = id.split('.').next().unwrap_or("").to_string();
+                for (i, l) in lines.iter() {
+                    if i.split('.').next().unwrap_or("") == cid {
+                        eprintln!("   {} {}", i, l);
+                    }
+                }
+            }
+        }
         let _ = reader.join();
         let _ = std::fs::remove_file(&path);
         match failed {
